@@ -1,5 +1,5 @@
 //@unit config
-//@props C17
+//@props C17 C14
 // U-config: the <config> element (ConfigElement::generate_events, src/transform.rs) starts from the
 // configuration IN FORCE and changes only the settings it names: a loop / var / depth limit given on
 // the command line or by an earlier <config> keeps applying unless this element sets it again.
@@ -33,9 +33,21 @@ impl Clone for TransformConfig { #[verifier::external_body] fn clone(&self) -> (
 //@item src/transform.rs :: struct ConfigElement
 //@end
 pub struct TransformerContext { pub config: TransformConfig, pub rest: CtxRest }
+/// the state of the context's random generator (what the next random() / randint() draws depend on)
+pub uninterp spec fn rng_state(c: CtxRest) -> int;
+pub uninterp spec fn fresh_rng(seed: u64) -> int;
 impl TransformerContext {
+    /// (proved in U-themeorder: C06.rng.seeded_from_config)
     #[verifier::external_body]
-    pub fn set_config(&mut self, config: TransformConfig) ensures final(self).config == config { unimplemented!() }
+    pub fn set_config(&mut self, config: TransformConfig) ensures final(self).config == config, rng_state(final(self).rest) == fresh_rng(config.seed) { unimplemented!() }
+    /// (proved in U-themeorder: C14.config.update_keeps_random_sequence)
+    #[verifier::external_body]
+    pub fn update_config(&mut self, config: TransformConfig, reseed: bool)
+        ensures final(self).config == config, rng_state(final(self).rest) == (if reseed { fresh_rng(config.seed) } else { rng_state(old(self).rest) })
+    { unimplemented!() }
+}
+impl SvgElement {
+    #[verifier::external_body] pub fn has_attr(&self, key: &str) -> (r: bool) ensures r == self.attrs@.dom().contains(key@) { unimplemented!() }
 }
 impl OutputList { #[verifier::external_body] pub fn new() -> OutputList { unimplemented!() } }
 #[verifier::external_body]
@@ -62,6 +74,9 @@ impl ConfigElement {
 //@ - r is Ok && !self.0.attrs@.dom().contains("var-limit"@) ==> final(context).config.var_limit == old(context).config.var_limit     @@C17.config.var_limit_persists
 //@ - r is Ok && !self.0.attrs@.dom().contains("depth-limit"@) ==> final(context).config.depth_limit == old(context).config.depth_limit     @@C17.config.depth_limit_persists
 //@ - r is Err ==> final(context).config == old(context).config     @@C17.config.error_changes_nothing
+//@ - r is Ok && !self.0.attrs@.dom().contains("seed"@) ==> rng_state(final(context).rest) == rng_state(old(context).rest)     @@C14.config.random_sequence_continues
+//@ - r is Ok && self.0.attrs@.dom().contains("seed"@) ==> rng_state(final(context).rest) == fresh_rng(final(context).config.seed)     @@C14.config.seed_restarts_sequence
+//@ - r is Err ==> rng_state(final(context).rest) == rng_state(old(context).rest)     @@C14.config.error_changes_nothing
 //@ loop 1
 //@ iter it
 //@ body-start
